@@ -15,6 +15,10 @@ expression the tree denotes, so every inner tree node is a *parent job* of the c
     ["files", n1, n2]       wfiles(<dir>/n1, <dir>/n2)       list of Files (Subvalue rows)
     ["jtag", s, k, v]       inc.options(tags=[(k, v)])(node(s))         job tag
     ["vtag", s, k, v]       apply_tags(node(s), tags=[(k, v)])          value tag
+    ["deep", n]             deep(n) -> dleaf(n) -> dleaf2(n); `deep` is declared check_valid="shallow":
+                            once recorded, a later execution that calls deep(n) again is answered by
+                            ultimate reduction -- it has a (cached) job for deep and NO job for dleaf /
+                            dleaf2, whose call nodes are reachable only through call edges
 
 Equal subtrees under different parents are different jobs with the same eval hash: the second is
 collapsed into the first while that one is pending (CSE of pending jobs) or served from the
@@ -83,6 +87,21 @@ def wfiles(p1, p2):
     return out
 
 
+@task(namespace=NS, name="dleaf2")
+def dleaf2(x):
+    return x * 2
+
+
+@task(namespace=NS, name="dleaf")
+def dleaf(x):
+    return dleaf2(x)
+
+
+@task(namespace=NS, name="deep", check_valid="shallow")
+def deep(x):
+    return dleaf(x)
+
+
 @task(namespace=NS, name="node")
 def node(spec):
     k = spec[0]
@@ -96,6 +115,8 @@ def node(spec):
         return pack(node(spec[1]), node(spec[2]))
     if k == "boom":
         return boom(spec[1])
+    if k == "deep":
+        return deep(spec[1])
     if k == "catch":
         return catch(node(spec[1]), ValueError, rec)
     if k == "file":
@@ -113,7 +134,7 @@ def node(spec):
 # random specs
 # ------------------------------------------------------------------------------------------------
 def gen_spec(rng, depth: int, p_boom: float = 0.15, files: bool = False, tags: bool = False,
-             pool: Optional[list] = None) -> list:
+             pool: Optional[list] = None, deep: bool = False) -> list:
     """Random tree; `pool` collects subtrees so that later choices can repeat one (CSE twins)."""
     if pool is None:
         pool = []
@@ -121,8 +142,10 @@ def gen_spec(rng, depth: int, p_boom: float = 0.15, files: bool = False, tags: b
         return rng.choice(pool)
     if depth <= 0:
         r = rng.random()
-        if r < p_boom:
-            s: list = ["boom", rng.randint(1, 2)]
+        if deep and rng.random() < 0.3:   # (extra draw only when asked for: other users' streams unchanged)
+            s: list = ["deep", rng.randint(1, 2)]
+        elif r < p_boom:
+            s = ["boom", rng.randint(1, 2)]
         elif files and r < p_boom + 0.2:
             s = ["file", f"f{rng.randint(1, 3)}.txt", f"text{rng.randint(1, 2)}"]
         elif files and r < p_boom + 0.3:
@@ -134,7 +157,7 @@ def gen_spec(rng, depth: int, p_boom: float = 0.15, files: bool = False, tags: b
         if tags:
             kinds += ["jtag", "vtag"]
         k = rng.choice(kinds)
-        sub = lambda: gen_spec(rng, depth - 1 - (rng.random() < 0.3), p_boom, files, tags, pool)  # noqa
+        sub = lambda: gen_spec(rng, depth - 1 - (rng.random() < 0.3), p_boom, files, tags, pool, deep)  # noqa
         if k in ("inc", "catch"):
             s = [k, sub()]
         elif k in ("add", "pack"):
